@@ -451,8 +451,14 @@ fn group_layer(ctx: &mut Ctx) {
         };
         for (cls, k) in scalars {
             let lk = lim(&k);
-            same(ctx, "scalar_mul", cls, guard(|| lp.scalar_mul(&lk)), &r2::mul(&k, &Some(pa.clone())), json!({"P": pt_json(&lp), "k": h(&lk)}));
+            let want = r2::mul(&k, &Some(pa.clone()));
+            same(ctx, "scalar_mul", cls, guard(|| lp.scalar_mul(&lk)), &want, json!({"P": pt_json(&lp), "k": h(&lk)}));
             same(ctx, "g_mul", cls, guard(|| g_mul(&lk)), &r2::mul(&k, &r2::g()), json!({"k": h(&lk)}));
+            // immediately afterwards on related points: -P (same x), P in another representation, then P again
+            same(ctx, "scalar_mul", "consecutive_negated_base", guard(|| ln1.scalar_mul(&lk)), &r2::neg(&want), json!({"P": pt_json(&ln1), "k": h(&lk)}));
+            same(ctx, "scalar_mul", "consecutive_same_point_other_Z", guard(|| lp2.scalar_mul(&lk)), &want, json!({"P": pt_json(&lp2), "k": h(&lk)}));
+            same(ctx, "scalar_mul", "consecutive_repeat", guard(|| lp.scalar_mul(&lk)), &want, json!({"P": pt_json(&lp), "k": h(&lk)}));
+            same(ctx, "scalar_mul", "consecutive_other_point", guard(|| lq.scalar_mul(&lk)), &r2::mul(&k, &Some(qa.clone())), json!({"P": pt_json(&lq), "k": h(&lk)}));
         }
     }
     // n + j for every j in 1..=40 and the scalars around every window boundary (the 4-bit window adds a
@@ -474,7 +480,7 @@ pub fn run(ctx: &mut Ctx) {
     for (n, ok) in r2::selftest() {
         ctx.selftest(&n, ok);
     }
-    ctx.require(&["fp_add", "fp_sub", "fp_mul", "fp_sqr", "fp_double", "fp_triple", "fp_neg", "fp_div2", "fp_inv", "fp_pow", "fp_sqrt_residue", "fp_sqrt_nonresidue", "fp_to_mont", "fp_from_mont", "fn_add", "fn_sub", "fn_mul", "fn_pow", "fn_inv", "u256_primitives", "fp_mont_mul_carry_out_of_2^512", "fp_mul_product=0", "fp_mul_product=1", "fp_mul_product=m-1", "table_entry", "single_byte_scalar", "P_ne_Q", "P_eq_Q_same_repr", "P_eq_Q_diff_Z", "P_eq_negQ_same_Z", "P_eq_negQ_diff_Z", "infinity_canonical", "infinity_arbitrary_XY", "k=0", "k=n", "k=n+1", "k=n+small", "k=2^256-1", "k=random", "k=n+j_sweep", "to_affine_point", "predicates", "predicates_offcurve", "from_byte"]);
+    ctx.require(&["fp_add", "fp_sub", "fp_mul", "fp_sqr", "fp_double", "fp_triple", "fp_neg", "fp_div2", "fp_inv", "fp_pow", "fp_sqrt_residue", "fp_sqrt_nonresidue", "fp_to_mont", "fp_from_mont", "fn_add", "fn_sub", "fn_mul", "fn_pow", "fn_inv", "u256_primitives", "fp_mont_mul_carry_out_of_2^512", "fp_mul_product=0", "fp_mul_product=1", "fp_mul_product=m-1", "table_entry", "single_byte_scalar", "P_ne_Q", "P_eq_Q_same_repr", "P_eq_Q_diff_Z", "P_eq_negQ_same_Z", "P_eq_negQ_diff_Z", "infinity_canonical", "infinity_arbitrary_XY", "k=0", "k=n", "k=n+1", "k=n+small", "k=2^256-1", "k=random", "k=n+j_sweep", "consecutive_negated_base", "consecutive_same_point_other_Z", "to_affine_point", "predicates", "predicates_offcurve", "from_byte"]);
     field_layer(ctx);
     table_layer(ctx);
     group_layer(ctx);
